@@ -5,8 +5,12 @@
      "lists":    every node list up to N entries, canonical or not, serialised as given, with clean
                  padding / a stray padding bit / a trailing byte (C02: one canonicity rule at a time)
      "programs": every well-typed program up to N nodes with witness values (C01: round trip)        *)
-EXTENDS Codec, TLC, Json
+EXTENDS Codec, TLC, Json, IOUtils
 CONSTANTS Mode, N, Bytes, EmitMod, ProgOps
+\* the Core family's jet table, extracted from the crate (vh c14 table); overrides Codec!JetRows in the cfgs
+\* (read once into a TLC register: a definition over IOEnv would be re-evaluated, i.e. the file re-read, at every use)
+ASSUME TLCSet(7, SelectSeq(ndJsonDeserialize(IOEnv.JETS), LAMBDA r : "side" \notin DOMAIN r /\ r.family = "core"))
+CoreJets == TLCGet(7)
 VARIABLES stage, item
 vars == <<stage, item>>
 
